@@ -691,6 +691,21 @@ func c10RunCase(co *caseOut, kind string, in c10Input) {
 			return
 		}
 		co.add(kind, fmt.Sprintf("%s/keys%d", modeTag, min(nkeys, 8)), big, in, impl, fmt.Sprintf("CGets %s %s", ops, coqList(reads)))
+	case "store":
+		// the node store after a final Flush: every DataMPT record (hash, value)
+		s.flush()
+		var dump [][2][]byte
+		s.st.Seek(storage.SeekRange{Prefix: []byte{byte(storage.DataMPT)}}, func(k, v []byte) bool {
+			dump = append(dump, [2][]byte{bytes.Clone(k[1:]), bytes.Clone(v)})
+			return true
+		})
+		xs := make([]string, len(dump))
+		for i, e := range dump {
+			xs[i] = fmt.Sprintf("(%s, %s)", coqBytes(e[0]), coqBytes(e[1]))
+		}
+		r := c10Root(s.tr)
+		co.add(kind, fmt.Sprintf("%s/recs%d", modeTag, min(len(dump)/8*8, 64)), big, in, map[string]any{"root": hx(r), "records": len(dump)},
+			fmt.Sprintf("CStore %s %s %s %s", ops, coqBool(s.mode.RC()), coqBytes(r), coqList(xs)))
 	case "root":
 		r := c10Root(s.tr)
 		errs := make([]string, len(s.errs))
@@ -1288,6 +1303,7 @@ func c10Generate(co *caseOut, r *rng, h int, tier string) {
 	sort.Slice(present, func(i, j int) bool { return bytes.Compare(present[i], present[j]) < 0 })
 
 	run("root", c10Query{})
+	run("store", c10Query{})
 	c10ModeRuns(co, r, keys, in.Ops)
 	if h%4 == 0 {
 		run("find_dirty", c10Query{Prefix: hx(pick(r, keys)[:0])})
@@ -1449,7 +1465,8 @@ func runC10(args []string) error {
 		"operation histories (Put/Delete/PutBatch/Flush/Collapse/reopen, modes All/Latest/GC) over colliding key sets "+
 			"(every history also in ModeLatest and ModeGC with a block index per Flush, several flush epochs with node hashes that die and are re-created, then reload from the stored root, all keys re-read, GetProof+VerifyProof of all stored keys, further updates) "+
 			"(prefixes of each other, shared nibble prefixes, nibbles 0 and 15, 68-byte keys, equal and empty values), each with one observation: "+
-			"StateRoot, Get, Find, TrieStore.Seek (both directions, start points around the keys), GetProof, VerifyProof on genuine and tampered proofs; "+
+			"StateRoot, Get, Find, TrieStore.Seek (both directions, start points around the keys), GetProof, VerifyProof on genuine and tampered proofs, "+
+			"the DataMPT records of the store after a final Flush (read back by the model's lazy expansion); "+
 			"hand-built node encodings for the decoder; SHA-256 vectors. A case is non-trivial when the final content has at least 2 keys "+
 			"(range searches: and the answer is non-empty; verify: at least 2 proof nodes; sha256: non-empty message); distinct by Coq term")
 	co.shard = 60
